@@ -11,6 +11,7 @@ every horizon, the stable models of `G P h` are exactly the embeddings of the te
 -/
 import TelProofs.CoreEquiv
 import TelModel.Generated.Directive
+import TelProofs.Enumerator
 
 namespace TelProofs.C01
 open TelSpec TelModel TelModel.Generated TelProofs
@@ -80,7 +81,18 @@ theorem C01_traces (P : TProg) (hc : progCore P = true) (h : Nat) (T : Trace) :
     rw [traceOf_embed h T' k hk a]
     exact heq k hk a
 
+/-- the oracle of the searches is the specification: `telspec tsm` prints exactly the masks whose trace is a (consistent)
+    temporal stable model — for programs with any rule heads incl. `&tel` head formulas and body literals incl. `&tel`,
+    over the enumerated atoms, at every horizon (used by the searches of C01, C02, C04, C06, C09, C12, C13, C17) -/
+theorem enumerator_is_spec (atoms : List String) (h : Nat) (P : TProg) (hnd : atoms.Nodup)
+    (hP : ∀ r ∈ P, ruleOver atoms r = true) (m : Nat) :
+    m ∈ tsmMasks h atoms P ↔
+      m < 2 ^ (atoms.length * (h + 1)) ∧ TSM h P (maskTrace atoms m) ∧ consistent h atoms (maskTrace atoms m) = true :=
+  mem_tsmMasks atoms h P hnd hP m
+
 /-! ### non-vacuity -/
+example : ruleOver ["a", "b"] ⟨.dynamic, .disj ["a", "b"], [.atom .not "a" (-1), .tel .notnot (.since (.atom "a") (.atom "b"))]⟩ = true := by decide
+
 
 /-- a program using past atoms, `_p`, `&final`, disjunction, choice, all four parts is in the fragment -/
 example : progCore [⟨.initial, .choice ["a", "b"], []⟩,
